@@ -116,6 +116,9 @@ static size_t rc_encode(int fmt, const uint8_t *msg, size_t n, uint8_t *out)
 	return o;
 }
 
+/* what the last rc_decode() call met (evidence counters of the harnesses) */
+static struct { unsigned inline_tail, pairs, full_blocks, blocks; } rc_seen;
+
 /*
  * reference decoder for one chunk = the bytes between two delimiters (zero
  * free by construction).  out must hold rc_msg_bound(n) bytes.
@@ -126,6 +129,7 @@ static int rc_decode(int fmt, const uint8_t *in, size_t n, uint8_t *out, size_t 
 	unsigned M = rc_maxcode(fmt);
 
 	*outlen = 0;
+	memset(&rc_seen, 0, sizeof(rc_seen));
 	if (fmt == RC_CMD) {
 		out[o++] = RC_CMD_HDR0;
 		out[o++] = RC_CMD_HDR1;
@@ -140,6 +144,9 @@ static int rc_decode(int fmt, const uint8_t *in, size_t n, uint8_t *out, size_t 
 		if (rc_is_zpe(fmt) && c == 0xFF) return RC_UNCLAIMED;
 		if (rc_is_zpe(fmt) && c >= 0xE0) { nd = c - 0xE0; nz = 2; }
 		else { nd = c - 1; nz = (c < M) ? 1 : 0; }
+		rc_seen.blocks++;
+		if (nz == 2) rc_seen.pairs++;
+		if (c == M) rc_seen.full_blocks++;
 		if (nd > n - i) {
 			/* block is cut short by the delimiter */
 			if (!rc_is_r(fmt)) return RC_MALFORMED;
@@ -147,6 +154,7 @@ static int rc_decode(int fmt, const uint8_t *in, size_t n, uint8_t *out, size_t 
 			memcpy(out + o, in + i, n - i); o += n - i;
 			out[o++] = (uint8_t) c;
 			*outlen = o;
+			rc_seen.inline_tail = 1;
 			return RC_OK;
 		}
 		memcpy(out + o, in + i, nd); o += nd; i += nd;
